@@ -4,8 +4,11 @@ EXTENDS WSReaderMC
 
 CONSTANTS LimitSet, Hist, Policy
 
+(* "memory used to receive a frame never depends on the length its header claims": with a generous limit  *)
+(* (2^30) a header may claim 2^24 or 2^28 bytes within the limit while only a few bytes follow.            *)
+BigL == 1073741824
 MCCfgs == {[role |-> r, pmce |-> FALSE, limit |-> L, hmode |-> "default", herrAt |-> 0, policy |-> Policy]
-             : r \in {"server", "client"}, L \in LimitSet}
+             : r \in {"server", "client"}, L \in LimitSet \cup {BigL}}
 
 D(c, fin, n) == Fr(c, OpBin, fin, n)
 C(c, fin, n) == Fr(c, OpCont, fin, n)
@@ -35,7 +38,15 @@ Over(c) == LET L == c.limit IN
    << [D(c, TRUE, 268435456) EXCEPT !.short = 4] >>,
    << D(c, FALSE, 1), [C(c, TRUE, 268435456) EXCEPT !.short = 3] >>}
 
-MCStreams(c) == {h \o t \o a : h \in UpTo(Within(c), Hist), t \in Within(c) \cup Over(c),
+Claims(c) ==
+  {<< [D(c, TRUE, 268435456) EXCEPT !.short = 4] >>,
+   << [D(c, TRUE, 16777216) EXCEPT !.short = 17] >>,
+   << D(c, FALSE, 1), [C(c, TRUE, 268435456) EXCEPT !.short = 3] >>,
+   << D(c, FALSE, 2), Ping(c), [C(c, FALSE, 16777216) EXCEPT !.short = 1] >>}
+
+MCStreams(c) ==
+  IF c.limit = BigL THEN {h \o t : h \in {<< >>, << D(c, TRUE, 5) >>}, t \in Claims(c)} ELSE
+                {h \o t \o a : h \in UpTo(Within(c), Hist), t \in Within(c) \cup Over(c),
                                a \in {<< >>, << D(c, TRUE, 1) >>}}
 
 MCCuts(st) == {NoCut}
